@@ -1,6 +1,9 @@
 package vrt
 
-import "fmt"
+import (
+	"fmt"
+	"unsafe"
+)
 
 // Chan is the virtual channel that replaces `chan T` in rewritten code.
 // A nil *Chan behaves like a nil channel.
@@ -40,6 +43,12 @@ func Make[T any](site string, n int) *Chan[T] {
 	}
 	if n < 0 {
 		panic("makechan: size out of range")
+	}
+	var elem T
+	if sz := uint64(unsafe.Sizeof(elem)); sz > 0 && uint64(n) > (1<<30)/sz {
+		// the Go runtime allocates the whole buffer up front: more than 1 GiB here means
+		// "fatal error: runtime: out of memory" (or a makechan panic) in the real process
+		panic(fmt.Sprintf("makechan: buffer of %d elements (%d bytes): the real runtime allocates it at once and dies with out of memory", n, uint64(n)*sz))
 	}
 	c := &Chan[T]{w: w, id: w.newKey(), label: site, cap: n}
 	w.hashers = append(w.hashers, c)
